@@ -1,6 +1,6 @@
 """C07 -- queued output is fully delivered before the proxy closes a connection (netmc)."""
 import os
-from .. import netmc, netcheck, oracles
+from .. import netmc, netcheck, oracles, plugins
 from ..netmc import Scenario, HttpOrigin, RawOrigin
 from .c01 import SCALED, stamp, pkname
 
@@ -84,6 +84,23 @@ def scenarios(tier):
                 dns={'h.test': '10.0.0.1'}, kinds='ARS', horizon=4000,
                 features={'role': 'relay_then_upstream_close', 'mode': mode, 'flags': fname, 'case': 'cl',
                           '_expect': resp2}))
+            # the client half-closes (shutdown(SHUT_WR)) right after its request and keeps reading:
+            # whatever the proxy produced for it must still arrive in full
+            hc = [
+                ('halfclose-web-route', base + ['--enable-web-server'], {'plugins': [plugins.web_stamp()]},
+                 b'GET /w/' + b'p' * 40 + b' HTTP/1.1\r\nHost: x\r\n\r\n'),
+                ('halfclose-static', base + ['--enable-static-server', '--static-server-dir', sd,
+                                             '--min-compression-length', '100000000'], {},
+                 b'GET /small.txt HTTP/1.1\r\nHost: x\r\n\r\n'),
+                ('halfclose-400', base, {}, b'FOO\r\n\r\n'),
+                ('halfclose-404', base + ['--enable-web-server'], {}, b'GET /nope HTTP/1.1\r\nHost: x\r\n\r\n'),
+            ]
+            for hn, fa2, fo2, req in hc:
+                out.append(Scenario('%s/%s/%s' % (mode, fname, hn), fa2, flags_opts=fo2, mode=mode,
+                                    clients=[dict(script=[('send', req), ('shutdown_wr',)] + wait)],
+                                    kinds='ARS', horizon=4000,
+                                    features={'role': 'half_closed_client', 'mode': mode, 'flags': fname, 'case': hn,
+                                              '_validate': 'h11'}))
             # early response: upstream answers after the request head and closes while the
             # client is still sending the body -> the proxy's next upstream write fails (EPIPE)
             head = b'POST http://h.test/u HTTP/1.1\r\nHost: h.test\r\nContent-Length: 8\r\n\r\n'
